@@ -293,6 +293,20 @@ def check_C12(tier, seed, t0):
         trace_module="TraceArgs.tla", trace_cfg="TraceArgs.cfg", driver_of=lambda d: "drv_args", extra_cov=dict(exhaustive=True))
 
 
+def check_C10(tier, seed, t0):
+    parts = 8
+    descs = ["mode=exact;stride4=%d;part=%d;parts=%d" % (41 if tier == "quick" else 3, i, parts) for i in range(parts)]
+    descs += ["mode=measured;count=%d;ccount=%d;nmax=80;seed=%d" % (n_of(tier, 160, 1600), n_of(tier, 40, 400), seed * 10 + i) for i in range(n_of(tier, 2, 8))]
+    descs += ["mode=protocol"]
+    own = ["VariantsSameStatus", "VariantsBitIdentical", "SolutionFinite", "StatusSuccessOrNumericalIssue", "NonsingularReportsSuccess", "ResidualSmall",
+           "SingularReportsNumericalIssue", "SolveBeforeComputeIsLogicError", "NonSquareRejected", "WrapperThrowsIffNotSuccessful",
+           "RecomputeIndependentOfHistory", "UnknownRow"]
+    return ir_flow("C10", tier, seed, descs, own, [], COMMON_ASSUME[:1] + [
+        "exact part: every symmetric matrix of order <= 3 over {-1,0,1,2} (order 4 over {-1,0,1}, strided) with shifts 0 and 1; nonsingularity decided by TLC with the exact integer determinant",
+        "measured part: residuals in long double, judged only when the long double condition number of the shifted matrix is below 1/sqrt(eps)"], t0,
+        trace_module="TraceKernel.tla", trace_cfg="TraceKernel.cfg", driver_of=lambda d: "drv_bkldlt")
+
+
 def check_C18(tier, seed, t0):
     parts = 16
     if tier == "quick":
@@ -347,7 +361,7 @@ def check_C14(tier, seed, t0):
         level="fault_enumeration" if False else "model_checking")
 
 
-CHECKS = {"C12": check_C12, "C03": check_C03, "C04": check_C04, "C06": check_C06, "C14": check_C14, "C18": check_C18, "C19": check_C19, "C05": check_C05, "C01": check_C01, "C02": check_C02, "C07": check_C07, "C13": check_C13}
+CHECKS = {"C10": check_C10, "C12": check_C12, "C03": check_C03, "C04": check_C04, "C06": check_C06, "C14": check_C14, "C18": check_C18, "C19": check_C19, "C05": check_C05, "C01": check_C01, "C02": check_C02, "C07": check_C07, "C13": check_C13}
 
 
 def main():
